@@ -212,12 +212,14 @@ theorem C08_tee_aligned (skip : Bool) (rs : List Val) (outs : List (List Val))
   simpa [Impl.countOk] using this
 
 /-- the same for the iterator stack of a real un-batched operator, including records whose
-processing fails: `paired` = every output next to the record it was computed from -/
+processing fails and — the repaired `processed_with_inputs`, finding F-C12-passed-on — skippable
+failing reads of the source (`Impl.annotSkip`: the source behind the `iter_ignore_error` wrapper):
+`paired` = every output next to the record it was computed from, for ANY source -/
 theorem C08_tee_aligned_op (skip : Bool) (op : Op) (h : op.fnBatch = 0 ∧ op.batch = 0)
     (src : List (Ev Val)) :
-    Impl.pwi skip src 0 (Impl.iterate false op ⟨Impl.annot 0 src, src.length + 1⟩).evs
+    Impl.pwi skip src 0 (Impl.iterate false op ⟨Impl.annotSkip skip 0 src, src.length + 1⟩).evs
       = paired skip op op.s0 0 src := by
-  rw [iterate_unbatched false op h, pwi_aligned0]
+  rw [iterate_unbatchedT skip op h, pwi_aligned0]
 
 /-! ## `apply` / `select` replace the record -/
 
